@@ -56,6 +56,12 @@ pub fn streams(thorough: bool) -> Vec<(String, Vec<u8>)> {
             }
         }
     }
+    // AUTH_UNIX-sized credentials and a verifier
+    {
+        let cred: Vec<u8> = (0..20).map(|k| 0x41 + k as u8).collect();
+        let verf: Vec<u8> = (0..8).map(|k| 0x61 + k as u8).collect();
+        v.push(("rpc-getport2-c20-v8".into(), apprpc::with_record_mark(&apprpc::build_call(0x61626364, 2, 100000, 2, 3, &cred, &verf))));
+    }
     v
 }
 
